@@ -259,11 +259,14 @@ class Impl:
                 cm = self.p.oneshot()
                 cm.__enter__()
             except Exception as e:  # noqa: BLE001
+                self.cms.append(None)
                 return {"kind": "exc", "exc": type(e).__name__}
             self.cms.append(cm)
             return {"kind": "unit"}
         if k == "exit":
-            cm = self.cms.pop()
+            cm = self.cms.pop() if self.cms else None
+            if cm is None:
+                return {"kind": "exc", "exc": "NoBlockEntered"}
             try:
                 if op["exc"]:
                     b = Boom()
